@@ -16,6 +16,9 @@ utf16 / latin1   document encoding of content.xml (latin1 only if every characte
 colstyle    <table:table-column> elements in front of the rows
 trailing-empty-run  a final run of empty cells with a repeat count in each row (as LibreOffice does)
 annotations  non-empty cells carry a comment (office:annotation with its own text:p) in front of their text
+filtered-rows  every second row carries table:visibility="filter" (hidden by an active filter: still a row of the sheet)
+sub-table   the first non-empty cell of each sheet holds a table:table with table:is-sub-table="true" behind its text
+dde-links   a table:dde-links element with a cached table:table behind the last sheet (no sheet of the document)
 
 Whitespace that ODF would collapse (leading/trailing blanks, runs of blanks, tabs, line breaks) is
 always written with the whitespace elements, because a literal would not denote the same text.
@@ -31,7 +34,7 @@ NS = {
 }
 ALL_FEATURES = ["colruns", "rowruns", "s-single", "s-noc", "paragraphs", "spans", "emptyp", "stored", "utf16",
                 "latin1", "colstyle", "trailing-empty-run", "annotations", "embedded-object", "links", "header-rows", "row-groups",
-                "covered-cells", "no-value-type", "no-mimetype"]
+                "covered-cells", "no-value-type", "no-mimetype", "filtered-rows", "sub-table", "dde-links"]
 
 
 def _escape(text):
@@ -117,6 +120,13 @@ def _cell_xml(text, features, used, attribute=""):
         used.add("office:annotation")
         body = ('<office:annotation><dc:date>2020-01-01T00:00:00</dc:date><text:p>a comment</text:p><text:p>'
                 "on two lines</text:p></office:annotation>") + body
+    if "sub-table" in features and "sub-table-done" not in used:
+        # a table nested in a cell (ODF 9.1.2 table:is-sub-table): content of that cell, no sheet of the document
+        used.add("sub-table-done")
+        used.add("sub-table")
+        body += ('<table:table table:name="nested" table:is-sub-table="true"><table:table-column/><table:table-row>'
+                 '<table:table-cell office:value-type="string"><text:p>nested</text:p></table:table-cell></table:table-row>'
+                 "</table:table>")
     if "no-value-type" in features:
         # office:value-type is optional: a cell with paragraphs is a text cell without it
         used.add("no-value-type")
@@ -163,6 +173,7 @@ def content_xml(sheets, features, used=None, repeats=None):
                NS["office"], NS["table"], NS["text"], NS["style"]),
            "<office:body><office:spreadsheet>"]
     for sheet_index, table in enumerate(sheets):
+        used.discard("sub-table-done")
         out.append('<table:table table:name="Sheet%d">' % (sheet_index + 1))
         if "colstyle" in features:
             width = max([len(row) for row in table] or [1]) or 1
@@ -179,6 +190,9 @@ def content_xml(sheets, features, used=None, repeats=None):
             if count > 1:
                 attribute = ' table:number-rows-repeated="%d"' % count
                 used.add("number-rows-repeated")
+            if "filtered-rows" in features and len(elements) % 2 == 1:
+                attribute += ' table:visibility="filter"'
+                used.add("filtered-row")
             elements.append("<table:table-row%s>%s</table:table-row>" % (attribute, _row_xml(table[index], features, used)))
             index = end
         if "row-groups" in features and len(elements) >= 2:
@@ -193,6 +207,14 @@ def content_xml(sheets, features, used=None, repeats=None):
             used.add("table-header-rows")
         out.extend(elements)
         out.append("</table:table>")
+    used.discard("sub-table-done")
+    if "dde-links" in features:
+        # the cached result of a DDE link: a table:table that is no sheet (ODF 9.8)
+        used.add("dde-links")
+        out.append('<table:dde-links><table:dde-link><office:dde-source office:dde-application="soffice" office:dde-topic="x.ods" '
+                   'office:dde-item="Sheet1.A1"/><table:table><table:table-column/><table:table-row><table:table-cell '
+                   'office:value-type="string"><text:p>cached</text:p></table:table-cell></table:table-row></table:table>'
+                   "</table:dde-link></table:dde-links>")
     out.append("</office:spreadsheet></office:body></office:document-content>")
     return "".join(out)
 
@@ -296,10 +318,19 @@ def decode_reference(archive_bytes):
             parts.append(child.tail or "")
         return "".join(parts)
 
+    def rows_of(element):
+        # rows of a sheet sit in the table itself or in its grouping wrappers, never inside a cell
+        for child in element:
+            if child.tag == t + "table-row":
+                yield child
+            elif child.tag in (t + "table-row-group", t + "table-header-rows", t + "table-rows"):
+                yield from rows_of(child)
+
     sheets = []
-    for table in root.iter(t + "table"):
+    spreadsheet = root.find("{%s}body/{%s}spreadsheet" % (NS["office"], NS["office"]))
+    for table in [child for child in spreadsheet if child.tag == t + "table"]:
         rows = []
-        for row in table.iter(t + "table-row"):
+        for row in rows_of(table):
             cells = []
             for cell in [child for child in row if child.tag in (t + "table-cell", t + "covered-table-cell")]:
                 value = "\n".join(text_of(p) for p in cell.findall(x + "p"))
